@@ -1386,7 +1386,22 @@ impl TheRing<'_> {
 
         // TODO: the above fails to handle the fact that PlainSessionKey::Unknown will not compare correctly
 
-        let is_consistent = is_sks_consistent && is_skesk_consistent && is_pkesk_consistent;
+        let mut is_consistent = is_sks_consistent && is_skesk_consistent && is_pkesk_consistent;
+
+        if !abort_early {
+            // All presented secrets are to be cross-checked: the session keys obtained through the
+            // different mechanisms (PKESK, SKESK, explicitly provided) must agree with each other, too.
+            let mut found = [
+                pkesk_session_key.as_ref().map(|(_, key)| key),
+                skesk_session_key.as_ref().map(|(_, key)| key),
+                sks_session_key.as_ref(),
+            ]
+            .into_iter()
+            .flatten();
+            if let Some(first) = found.next() {
+                is_consistent &= found.all(|key| key == first);
+            }
+        }
 
         if !is_consistent {
             bail!("inconsistent session keys detected");
